@@ -13,7 +13,9 @@ import (
 	"fmt"
 	htmltemplate "html/template"
 	"io"
+	"os"
 	"strings"
+	"syscall"
 
 	"go.pennock.tech/tabular"
 	"go.pennock.tech/tabular/auto"
@@ -26,14 +28,38 @@ import (
 
 var errFault = errors.New("scripted writer fault")
 
+// the error values a destination may fail with: what they say about
+// themselves (temporary, timeout, a well-known sentinel) changes nothing
+type tempErr struct{ timeout bool }
+
+func (e tempErr) Error() string   { return "scripted fault (describes itself as temporary)" }
+func (e tempErr) Temporary() bool { return true }
+func (e tempErr) Timeout() bool   { return e.timeout }
+
+var c15Errs = []error{
+	errFault,
+	tempErr{},
+	fmt.Errorf("write pipe: %w", syscall.EAGAIN),
+	tempErr{timeout: true},
+	io.ErrShortWrite,
+	io.EOF,
+	&os.PathError{Op: "write", Path: "/dev/full", Err: syscall.ENOSPC},
+	syscall.EINTR,
+}
+
 type scriptWriter struct {
 	mode, k int
 	calls   int
 	acc     []byte
 	chunks  [][]byte
+	err     error
 }
 
 func (w *scriptWriter) Write(p []byte) (int, error) {
+	fault := w.err
+	if fault == nil {
+		fault = errFault
+	}
 	i := w.calls
 	w.calls++
 	accept := func(n int) { w.acc = append(w.acc, p[:n]...) }
@@ -44,28 +70,72 @@ func (w *scriptWriter) Write(p []byte) (int, error) {
 		return len(p), nil
 	case 1:
 		if i >= w.k {
-			return 0, errFault
+			return 0, fault
 		}
 	case 2:
 		if i == w.k {
-			return 0, errFault
+			return 0, fault
 		}
 	case 3:
 		if i == w.k {
 			accept(len(p) / 2)
-			return len(p) / 2, errFault
+			return len(p) / 2, fault
 		}
 		if i > w.k {
-			return 0, errFault
+			return 0, fault
 		}
 	case 4:
 		if i == w.k {
 			accept(len(p) / 2)
-			return len(p) / 2, errFault
+			return len(p) / 2, fault
 		}
 	}
 	accept(len(p))
 	return len(p), nil
+}
+
+// richer destinations: the same script behind the optional interfaces an
+// io.Writer may also offer (the *os.File / *bufio.Writer / bytes.Buffer family)
+type stringScriptWriter struct{ *scriptWriter }
+
+func (w stringScriptWriter) WriteString(s string) (int, error) { return w.Write([]byte(s)) }
+
+type fullScriptWriter struct{ *scriptWriter }
+
+func (w fullScriptWriter) WriteString(s string) (int, error) { return w.Write([]byte(s)) }
+func (w fullScriptWriter) WriteByte(c byte) error {
+	_, err := w.Write([]byte{c})
+	return err
+}
+func (w fullScriptWriter) ReadFrom(r io.Reader) (int64, error) {
+	var total int64
+	buf := make([]byte, 512)
+	for {
+		n, rerr := r.Read(buf)
+		if n > 0 {
+			m, werr := w.Write(buf[:n])
+			total += int64(m)
+			if werr != nil {
+				return total, werr
+			}
+		}
+		if rerr == io.EOF {
+			return total, nil
+		}
+		if rerr != nil {
+			return total, rerr
+		}
+	}
+}
+
+func (w *scriptWriter) as(kind int) io.Writer {
+	switch kind {
+	case 1:
+		return stringScriptWriter{w}
+	case 2:
+		return fullScriptWriter{w}
+	}
+	return w
 }
 
 type C15Target struct {
@@ -78,6 +148,11 @@ type C15Spec struct {
 	Table  TableSpec `json:"table"`
 	Target C15Target `json:"target"`
 	Only   *[2]int   `json:"only,omitempty"` // restrict to one (mode, k)
+	// Writer: 0 the destination offers Write only; 1 also WriteString; 2 also
+	// WriteString, WriteByte and ReadFrom (all behind the same script).
+	// ErrKind: index into c15Errs, the error value the script fails with.
+	Writer  int `json:"writer,omitempty"`
+	ErrKind int `json:"err_kind,omitempty"`
 }
 
 func c15RenderTo(t tabular.Table, tg C15Target, w io.Writer) error {
@@ -220,9 +295,10 @@ func init() {
 				n = 150
 			}
 			var out []json.RawMessage
-			for _, ts := range c15Tables(r, n) {
-				for _, tg := range c15Targets {
-					out = append(out, mustJSON(C15Spec{Table: ts, Target: tg}))
+			for ti, ts := range c15Tables(r, n) {
+				for gi, tg := range c15Targets {
+					// destination kind and error value rotate so that each target meets each of them
+					out = append(out, mustJSON(C15Spec{Table: ts, Target: tg, Writer: (ti + 2*gi) % 3, ErrKind: (ti + gi) % len(c15Errs)}))
 				}
 			}
 			// sizes at which buffering layers change behaviour: one cell beyond 4 KiB, and a table of 120 rows
@@ -233,9 +309,9 @@ func init() {
 				for i := 0; i < 120; i++ {
 					long.Rows = append(long.Rows, RowSpec{Cells: []ItemSpec{Str(fmt.Sprintf("r%d", i)), Str("v")}})
 				}
-				for _, tg := range []C15Target{{"csv", "", 0}, {"json", "", 0}, {"json", "", 1}, {"markdown", "", 0}, {"html", "", 0}, {"html", "", 1}, {"text", "", 0}, {"text", "none", 0}} {
-					out = append(out, mustJSON(C15Spec{Table: big, Target: tg}))
-					out = append(out, mustJSON(C15Spec{Table: long, Target: tg}))
+				for gi, tg := range []C15Target{{"csv", "", 0}, {"json", "", 0}, {"json", "", 1}, {"markdown", "", 0}, {"html", "", 0}, {"html", "", 1}, {"text", "", 0}, {"text", "none", 0}} {
+					out = append(out, mustJSON(C15Spec{Table: big, Target: tg, Writer: gi % 3, ErrKind: gi % len(c15Errs)}))
+					out = append(out, mustJSON(C15Spec{Table: long, Target: tg, Writer: (gi + 1) % 3, ErrKind: (gi + 3) % len(c15Errs)}))
 				}
 			}
 			return out
@@ -254,12 +330,12 @@ func init() {
 				Verdict  string `json:",omitempty"`
 			}
 			desc := map[string]interface{}{}
-			tags := []string{"fmt=" + sp.Target.Fmt, fmt.Sprintf("entry=%d", sp.Target.Entry)}
+			tags := []string{"fmt=" + sp.Target.Fmt, fmt.Sprintf("entry=%d", sp.Target.Entry), fmt.Sprintf("writer-kind=%d", sp.Writer), fmt.Sprintf("error-kind=%d", sp.ErrKind%len(c15Errs))}
 			if sp.Target.Decor != "" {
 				tags = append(tags, "decor="+sp.Target.Decor)
 			}
 			one := func(mode, k int) (w *scriptWriter, err error, pan string) {
-				w = &scriptWriter{mode: mode, k: k}
+				w = &scriptWriter{mode: mode, k: k, err: c15Errs[sp.ErrKind%len(c15Errs)]}
 				defer func() {
 					if r := recover(); r != nil {
 						pan = fmt.Sprint(r)
@@ -267,7 +343,7 @@ func init() {
 				}()
 				t := tabular.New()
 				sp.Table.Build(t)
-				err = c15RenderTo(t, sp.Target, w)
+				err = c15RenderTo(t, sp.Target, w.as(sp.Writer))
 				return
 			}
 			w0, err0, pan0 := one(0, 0)
@@ -347,12 +423,12 @@ func init() {
 			}
 			var out []json.RawMessage
 			for _, ts := range shrinkTable(sp.Table) {
-				out = append(out, mustJSON(C15Spec{Table: ts, Target: sp.Target, Only: nil}))
+				out = append(out, mustJSON(C15Spec{Table: ts, Target: sp.Target, Only: nil, Writer: sp.Writer, ErrKind: sp.ErrKind}))
 			}
 			if sp.Only == nil {
 				for k := 0; k < 40; k++ {
 					for mode := 1; mode <= 4; mode++ {
-						out = append(out, mustJSON(C15Spec{Table: sp.Table, Target: sp.Target, Only: &[2]int{mode, k}}))
+						out = append(out, mustJSON(C15Spec{Table: sp.Table, Target: sp.Target, Only: &[2]int{mode, k}, Writer: sp.Writer, ErrKind: sp.ErrKind}))
 					}
 				}
 			}
